@@ -1212,10 +1212,18 @@ def new_stats():
             "by_container": {}, "by_idseq": {}, "_fl": 0, "datasets": []}
 
 
-def run(ctx):
+def tables_lock(ctx):
+    """coq/gen/{Chain,Uses,ChainAdapters}.v are rewritten IN PLACE while a run is on a tree other than the committed one:
+    ONE lock for every C13 run on this machine, whatever its build directory (VERIF_BUILD_TAG) -- two runs on different
+    trees would otherwise prove their theorems over each other's tables"""
     os.makedirs(ctx.build, exist_ok=True)
-    lock = open(os.path.join(ctx.build, "run.lock"), "w")
+    lock = open(os.path.join(vlib.VERIF, "build", "C13_tables.lock"), "w")
     fcntl.flock(lock, fcntl.LOCK_EX)
+    return lock
+
+
+def run(ctx):
+    lock = tables_lock(ctx)
     restore = []
     try:
         _run(ctx, restore)
@@ -1447,9 +1455,7 @@ def _run(ctx, restore):
 
 
 def replay(ctx, case):
-    os.makedirs(ctx.build, exist_ok=True)
-    lock = open(os.path.join(ctx.build, "run.lock"), "w")
-    fcntl.flock(lock, fcntl.LOCK_EX)
+    lock = tables_lock(ctx)
     restore = []
     try:
         return _replay(ctx, case, restore)
